@@ -68,6 +68,10 @@ pub fn gen_rule(src: &mut Src, special_args: bool) -> RRule {
                 6 => "'".to_string(),
                 _ => gen_string(src),
             }
+        } else if src.chance(60) {
+            // a string that is also a valid object path: an argument of type 'o' with this very
+            // text is still not a string argument
+            gen_path_like(src)
         } else {
             let n = src.below(4);
             (0..n).map(|_| (b'a' + src.below(3) as u8) as char).collect()
@@ -119,11 +123,40 @@ pub fn build_rule(r: &RRule) -> Result<MatchRule<'static>, String> {
     if let Some(v) = &r.destination {
         b = b.destination(v.clone()).map_err(e)?;
     }
-    for (i, v) in &r.args {
-        b = b.arg(*i, v.clone()).map_err(e)?;
+    // The builder's routes to one and the same rule: indices given explicitly in any order, values
+    // given twice (the later one counts), and add_arg / add_arg_path where the index is the number
+    // of arguments given so far. Which route is taken is a function of the rule (so replay works).
+    let route = vcore::src::fnv(format!("{:?}{:?}", r.args, r.arg_paths).as_bytes());
+    let mut order: Vec<usize> = (0..r.args.len()).collect();
+    if route & 1 == 1 {
+        order.reverse();
     }
+    let mut given = 0usize;
+    for (n, k) in order.iter().enumerate() {
+        let (i, v) = &r.args[*k];
+        if route & 2 == 2 && n == 0 {
+            // a value that is replaced right away
+            b = b.arg(*i, "decoy").map_err(e)?;
+            given += 1;
+        }
+        let already = route & 2 == 2 && n == 0;
+        if !already && *i as usize == given && route & 4 == 4 {
+            b = b.add_arg(v.clone()).map_err(e)?;
+        } else {
+            b = b.arg(*i, v.clone()).map_err(e)?;
+        }
+        if !already {
+            given += 1;
+        }
+    }
+    let mut given = 0usize;
     for (i, v) in &r.arg_paths {
-        b = b.arg_path(*i, v.clone()).map_err(e)?;
+        if *i as usize == given && route & 8 == 8 {
+            b = b.add_arg_path(v.clone()).map_err(e)?;
+        } else {
+            b = b.arg_path(*i, v.clone()).map_err(e)?;
+        }
+        given += 1;
     }
     if let Some(v) = &r.arg0namespace {
         b = b.arg0ns(v.clone()).map_err(e)?;
